@@ -75,12 +75,85 @@ func ruleWatchdogRearm() check.Rule {
 						switch {
 						case !pathsPassBefore(body, e.Node, isCallOn("Stop")):
 							c.Report(armed, key, e.Pos, "the %s notification is forwarded while the watchdog timer %s may still be armed: it can fire during a slow delivery, i.e. right after the source emitted", model.SlotNames[e.Kind], tid.Name)
-						case e.Kind == model.EmitNext && !pathsPassAfter(body, e.Node, isCallOn("Reset")):
+						case e.Kind == model.EmitNext && !pathsPassAfter(body, e.Node, func(nd ast.Node) bool {
+							// re-armed, or found closed by the test that guards the re-arming (see the clause below)
+							if isCallOn("Reset")(nd) {
+								return true
+							}
+							closedTest := false
+							if ex, isExpr := nd.(ast.Expr); isExpr {
+								ast.Inspect(ex, func(z ast.Node) bool {
+									if y, ok := z.(*ast.CallExpr); ok {
+										if s2, ok := ast.Unparen(y.Fun).(*ast.SelectorExpr); ok && s2.Sel.Name == "IsClosed" {
+											closedTest = true
+										}
+									}
+									return !closedTest
+								})
+							}
+							return closedTest
+						}):
 							c.Report(armed, key, e.Pos, "after forwarding the value the watchdog timer %s is not re-armed on every path: a later silence of the source is never reported", tid.Name)
 						default:
 							if armed {
 								c.OK(key, e.Pos, "watchdog stopped before the forward%s", map[bool]string{true: " and re-armed after it", false: ""}[e.Kind == model.EmitNext])
 							}
+						}
+						// the forward may have ended the subscription (downstream completed or unsubscribed inside it): the teardown
+						// has then stopped the timer, and re-arming it makes it fire later into a closed stream and keeps the timer
+						// alive after the subscription is closed. The Reset that follows the forward is reached only after a test of
+						// the closed state (of the destination, or of something the teardown writes)
+						if e.Kind == model.EmitNext {
+							tdWrites := map[types.Object]bool{}
+							for _, tr := range sc.Teardowns {
+								if tr.Val != nil && tr.Val.Kind == model.AVFunc && tr.Val.Lit != nil {
+									for _, w := range writesIn(tr.Pkg.TypesInfo, tr.Val.Lit.Body) {
+										tdWrites[w.Var] = true
+									}
+								}
+							}
+							ast.Inspect(body, func(x ast.Node) bool {
+								call, ok := x.(*ast.CallExpr)
+								if !ok || call.Pos() < e.Node.End() {
+									return true
+								}
+								sel, ok := ast.Unparen(call.Fun).(*ast.SelectorExpr)
+								if !ok || sel.Sel.Name != "Reset" {
+									return true
+								}
+								if id, ok := ast.Unparen(sel.X).(*ast.Ident); !ok || objOf(info, id) != tv {
+									return true
+								}
+								gkey := fmt.Sprintf("%s/watchdog-%s-rearm-after-close", e.Key, tid.Name)
+								guarded := guardedByEdge(body, call, func(cond ast.Expr, _ bool) bool {
+									if cond.Pos() < e.Node.End() {
+										return false
+									}
+									found := false
+									ast.Inspect(cond, func(z ast.Node) bool {
+										switch y := z.(type) {
+										case *ast.CallExpr:
+											if s2, ok := ast.Unparen(y.Fun).(*ast.SelectorExpr); ok && s2.Sel.Name == "IsClosed" {
+												found = true
+											}
+										case *ast.Ident:
+											if tdWrites[objOf(info, y)] {
+												found = true
+											}
+										}
+										return !found
+									})
+									return found
+								})
+								if guarded {
+									if armed {
+										c.OK(gkey, call.Pos(), "re-armed only after a test of the closed state")
+									}
+								} else {
+									c.Report(armed, gkey, call.Pos(), "the watchdog timer %s is re-armed after the forward without testing whether the forward closed the subscription: when downstream completes or unsubscribes inside it (Timeout | Take(1)) the teardown has already stopped the timer, the Reset arms it again, it outlives the subscription and fires a timeout error into the closed stream", tid.Name)
+								}
+								return true
+							})
 						}
 					}
 					// forwarders (method values of the destination) bypass the watchdog handling
